@@ -42,38 +42,44 @@ def statusOf (s : Subscriber) : String :=
   | some c => "ended:" ++ renderCode c
   | none => if s.alive then "alive" else "ended:?"
 
-/-- (key, rendering) of one response -/
-def respKV (showDup : Bool) : Resp → String × String
-  | .upd n d =>
+/-- (key, rendering, inserts represented if its dup count is deterministic) of one response -/
+def respKV : Resp × Bool → String × String × Nat
+  | (.upd n d, showDup) =>
     let u := n.upd.headD {}
     let idx := subIndex n.target n.origin (n.pfx ++ (if n.atomic then [] else u.path))
-    (encPath idx, (if n.atomic then "A" else "U") ++ CA.renderStored n ++
-      (if showDup && d > 0 then "~d" ++ toString d else ""))
-  | .del t o p ts _ => (encPath (subIndex t o p), "D@" ++ toString ts)
-  | .sync => ("", "sync")
+    (encPath idx, (if n.atomic then "A" else "U") ++ CA.renderStored n, if showDup then d + 1 else 0)
+  | (.del t o p ts _, _) => (encPath (subIndex t o p), "D@" ++ toString ts, 0)
+  | (.sync, _) => ("", "sync", 0)
 
 def isUpdResp (r : String) : Bool := r.startsWith "U" || r.startsWith "A"
 
 /-- consecutive update responses for one key collapse into the last one (intermediate values
-may or may not be seen, depending on whether the sender ran between two inserts) -/
-def dedupConsecutive : List String → List String
+may or may not be seen, depending on whether the sender ran between two inserts); the number
+of inserts they stand for is conserved -/
+def collapse : List (String × Nat) → List (String × Nat)
   | a :: b :: r =>
-    if (isUpdResp a && isUpdResp b) || a == b then dedupConsecutive (b :: r) else a :: dedupConsecutive (b :: r)
+    if isUpdResp a.1 && isUpdResp b.1 then collapse ((b.1, a.2 + b.2) :: r)
+    else if a.1 == b.1 then collapse ((b.1, max a.2 b.2) :: r)
+    else a :: collapse (b :: r)
   | l => l
+termination_by l => l.length
+
+def showCount (x : String × Nat) : String := if x.2 > 1 then x.1 ++ "~n" ++ toString x.2 else x.1
 
 /-- canonical form of a run of responses without sync: per key, the responses in order -/
-def renderSegment (showDup : Bool) (seg : List Resp) : String :=
-  let kvs := seg.map (respKV showDup)
+def renderSegment (seg : List (Resp × Bool)) : String :=
+  let kvs := seg.map respKV
   let keys := sortStrs (kvs.map (·.1)).eraseDups
-  bracket (keys.map (fun k => k ++ ":" ++ ">".intercalate (dedupConsecutive ((kvs.filter (·.1 == k)).map (·.2)))))
+  bracket (keys.map (fun k => k ++ ":" ++
+    ">".intercalate ((collapse ((kvs.filter (·.1 == k)).map (·.2))).map showCount)))
 
-def splitSync : List Resp → List Resp → List (List Resp)
+def splitSync : List (Resp × Bool) → List (Resp × Bool) → List (List (Resp × Bool))
   | [], cur => [cur]
-  | .sync :: r, cur => cur :: splitSync r []
+  | (.sync, _) :: r, cur => cur :: splitSync r []
   | x :: r, cur => splitSync r (cur ++ [x])
 
-def renderOut (showDup : Bool) (out : List Resp) : String :=
-  " sync ".intercalate ((splitSync out []).map (renderSegment showDup))
+def renderOut (out : List (Resp × Bool)) : String :=
+  " sync ".intercalate ((splitSync out []).map renderSegment)
 
 def findSub (s : Sub.State) (id : String) : Option Subscriber := s.subs.find? (·.id == id)
 
@@ -85,7 +91,7 @@ def drainObs (s : Sub.State) (id : String) : Sub.State × String :=
       | some .ok => false
       | some _ => true
       | none => false
-    let obs := if bad then statusOf sub else renderOut sub.gatedSinceDrain sub.out ++ " " ++ statusOf sub
+    let obs := if bad then statusOf sub else renderOut sub.out ++ " " ++ statusOf sub
     (Sub.updateSub s id (fun x => { x with out := [], gatedSinceDrain := x.gateShut }), obs)
 
 def step (st : St) (args : List String) : St × String × String :=
@@ -109,7 +115,7 @@ def step (st : St) (args : List String) : St × String × String :=
       if (findSub s (decStr id)).isNone then dup (st, "no-such-subscriber")
       else if op == "poll" then dup ({ s := Sub.poll s (decStr id) }, "ok")
       else if op == "eof" then dup ({ s := Sub.eof s (decStr id) }, "ok")
-      else if op == "expire" then dup ({ s := Sub.expire s (decStr id) }, "ok")
+      else if op == "expire" then dup ({ s := Sub.expire s }, "ok")
       else if op == "view" then dup (st, "ok")
       else dup (st, "bad-op")
   | ["gate", id, g] =>
